@@ -141,7 +141,7 @@ class CFG:
         expr may be a compound `a && b` (see decided()); facts() gives the atomic facts it implies."""
         if label is None:
             return None
-        cond, br = label
+        cond, br = label[0], label[1]
         if isinstance(br, tuple):
             return None
         fn = self.fn
@@ -177,6 +177,10 @@ class CFG:
                 if e is not None:
                     rec(e, pol, depth + 1)     # testing a variable that just names a condition is testing that condition
         rec(f[0], f[1])
+        if len(label) > 2:
+            # augmented by reach(): the tested variable was last assigned the condition label[2] on this path
+            for extra in label[2]:
+                rec(extra, f[1])
         return out
 
     def _bool_def(self, d, name):
@@ -474,7 +478,14 @@ class CFG:
                     if isinstance(x[0], tuple) and x[0][0] == "def":
                         st_[("def", x[0][1])] = x[1]
                 states.setdefault(p, []).append(st_)
+            lastdefs = {x[0][1]: x[1] for x in facts if isinstance(x[0], tuple) and x[0][0] == "def"} if facts else {}
             for q, lab in self.edges.get(p, []):
+                if lab is not None and lastdefs and not isinstance(lab[1], tuple):
+                    fa0 = self.fact(lab)
+                    if fa0 is not None:
+                        m0 = self.fn.nodes[fa0[0]]
+                        if m0["k"] == "DeclRefExpr" and m0.get("d") in lastdefs and self._bool_def(m0["d"], m0.get("n", "")) is None:
+                            lab = (lab[0], lab[1], (lastdefs[m0["d"]],))
                 if edge_ok is not None and not edge_ok(lab, p, q):
                     continue
                 if consts and lab is not None and any(isinstance(e2, int) and self._contradicts(consts, e2, pol2) for e2, pol2 in self.facts(lab)):
